@@ -293,6 +293,20 @@ Definition dispatch (kind : string) (args : list string) : string :=
         end
     | _ => BADARGS
     end
+  else if String.eqb kind "census" then
+    (* the model's lists of what it mirrors, compared with reflection / go/ast of the source *)
+    match args with
+    | [k] =>
+        let names (l : list (string * string)) := out3 (Text.join "," (map fst l)) "-" "-" in
+        if String.eqb k "line" then names line_methods
+        else if String.eqb k "logger" then names logger_methods
+        else if String.eqb k "fastlog" then names fastlog_impls
+        else if String.eqb k "consts" then
+          out3 ("bufSize=" ++ dec_of_nat BUFSZ ++ ";hexAscii=" ++ string_of_bytes hex_ascii_tbl
+                ++ ";byteAscii=" ++ Text.join "." (map string_of_bytes byte_ascii_tbl)) "-" "-"
+        else BADARGS
+    | _ => BADARGS
+    end
   else if String.eqb kind "ve" then
     match entry_of args with
     | Some v => run_view v
